@@ -72,8 +72,22 @@ def task(t):
                 ('_copy.copy_bdd shared memo', _copy.copy_bdd(u, tgt, shared)),
             ]
             g = fs[(k * 37 + 11) % len(fs)]
-            both = _copy.copy_bdds_from([u, fn[g], ~u], tgt)
+            # `roots` is any iterable: the container shape rotates with the function
+            trio = [u, fn[g], ~u]
+            shape = ('list', 'tuple', 'generator', 'map', 'dict-values', 'iterator')[k % 6]
+            shaped = dict(
+                list=lambda: list(trio), tuple=lambda: tuple(trio),
+                generator=lambda: (x_ for x_ in trio), map=lambda: map(lambda x_: x_, trio),
+                iterator=lambda: iter(trio))
+            shaped['dict-values'] = lambda: dict(enumerate(trio)).values()
+            both = _copy.copy_bdds_from(shaped[shape](), tgt)
+            case['roots_as'] = shape
+            if len(both) != 3:
+                rec('wrong:copy_bdds_from-length', 'copy_bdds_from returned another number of '
+                    'references than it was given roots', case)
+                both = list(both) + [tgt.false] * 3
             results.append(('copy_bdds_from[0]', both[0]))
+            trio = shaped = None
             first = None
             for how, r in results:
                 rep.add('evaluations')
